@@ -148,3 +148,35 @@ def module_state(ctx, modnames):
                     out.append({"kind": "nonlocal-store", "module": mn, "function": q, "line": n.lineno, "file": src.rel,
                                 "stmt": ast.unparse(n)[:100], "name": tgt, "what": "store through a name that is not local"})
     return out
+
+
+SUBSTITUTABLE_ANN = ("type[", "bool", "Literal[", "int", "str", "bytes", "EntityType", "i8", "i16", "i32", "i64")
+
+
+def memoised_functions(ctx, modnames):
+    """functools.cache / lru_cache decorated functions and whether every parameter's equality implies
+    substitutability.  Memoisation is keyed by == and hash: datetime (fold), float/int/bool (1 == 1.0 == True)
+    and `object` parameters collapse values that behave differently."""
+    out = []
+    for mn in modnames:
+        src = ctx.sm.get(mn)
+        if src is None:
+            continue
+        qidx = qualname_index(src.tree)
+        for fn, q in qidx.items():
+            if not isinstance(fn, ast.FunctionDef):
+                continue
+            decos = [ast.unparse(d) for d in fn.decorator_list]
+            if not any(d.split("(")[0].split(".")[-1] in ("cache", "lru_cache", "cached_property") for d in decos):
+                continue
+            bad = []
+            for a in fn.args.args + fn.args.kwonlyargs:
+                ann = ast.unparse(a.annotation) if a.annotation is not None else ""
+                if a.arg in ("self", "cls") and not ann:
+                    ann = "type["
+                ok = ann.startswith(("type[", "Literal[")) or ann in ("bool", "str", "bytes", "EntityType")
+                if not ok:
+                    bad.append(f"{a.arg}: {ann or '<unannotated>'}")
+            out.append({"module": mn, "function": q, "line": fn.lineno, "file": src.rel, "decorators": decos, "bad_params": bad,
+                        "stmt": f"@{decos[0]} def {fn.name}({', '.join(a.arg for a in fn.args.args)})"})
+    return out
